@@ -40,21 +40,22 @@ let parse_scen (s : string) : c10_scen =
 let parse_checks (s : string) : c10_checks =
   let b i = String.length s > i && s.[i] = '1' in
   if String.length s = 1 then (if s = "1" then c10_repaired else c10_unrepaired)
-  else { ck_finish = b 0; ck_wclose = b 1; ck_jsclose = b 2; ck_jclose = b 3; ck_ostream = b 4; ck_stdout = b 5 }
+  else { ck_finish = b 0; ck_wclose = b 1; ck_jsclose = b 2; ck_jclose = b 3; ck_ostream = b 4; ck_stdout = b 5; ck_popper = b 6 }
 
-(* fault token -> (oracle, initcap) *)
-let parse_fault (t : string) : (nat -> c10_fact) * nat option =
+(* fault token -> (oracle, initcap, glitch) *)
+let parse_fault (t : string) : (nat -> c10_fact) * nat option * nat option =
   match String.split_on_char '@' t with
-  | ["none"] -> ((fun _ -> FaNone), None)
+  | ["none"] -> ((fun _ -> FaNone), None, None)
   | [m; v] ->
     let k = int_of_string v in
     (match m with
-     | "cap" -> ((fun _ -> FaNone), Some (nat_of_int k))
-     | "disk" -> ((fun x -> let i = int_of_nat x in if i = k then FaFull else if i > k then FaStreamFull else FaNone), None)
+     | "cap" -> ((fun _ -> FaNone), Some (nat_of_int k), None)
+     | "once" -> ((fun _ -> FaNone), None, Some (nat_of_int (k - 1)))
+     | "disk" -> ((fun x -> let i = int_of_nat x in if i = k then FaFull else if i > k then FaStreamFull else FaNone), None, None)
      | _ ->
        let a = (match m with "full" -> FaFull | "fail" -> FaFail | "killb" -> FaKillB | "killa" -> FaKillA
                              | _ -> failwith "fault mode") in
-       ((fun x -> if int_of_nat x = k then a else FaNone), None))
+       ((fun x -> if int_of_nat x = k then a else FaNone), None, None))
   | _ -> failwith "fault"
 
 let ec_name = function EcOpen -> "open" | EcWrite -> "write" | EcFlush -> "flush" | EcClose -> "close"
@@ -73,8 +74,8 @@ let ev_str = function
 
 let result_str (verbose : bool) (r : c10_result) : string =
   let w = r.rs_world in
-  let ex = match r.rs_exit with None -> "K" | Some c -> string_of_int (int_of_nat c) in
-  let diags = String.concat "," (List.rev_map diag_str w.cw_diag) in
+  let ex = if w.cw_aborted then "134" else match r.rs_exit with None -> "K" | Some c -> string_of_int (int_of_nat c) in
+  let diags = String.concat "," (List.rev_map diag_str w.cw_diag @ (if w.cw_aborted then ["T"] else [])) in
   let files = List.map (fun (name, f) ->
       let s = string_of_bytes (sio_disk f) in
       (int_of_nat name, Printf.sprintf "%d:%d:%s:%s" (int_of_nat name) (String.length s) (Digest.to_hex (Digest.string s))
@@ -86,14 +87,15 @@ let result_str (verbose : bool) (r : c10_result) : string =
     (if verbose then String.map (fun c -> if c = ' ' then '_' else c) trace else Digest.to_hex (Digest.string trace))
 
 let c10_handler verbose args = match args with
-  | [ck; b; rounds; warn; wx0; scen; orig; faults] ->
+  | [ck; b; rounds; pops; warn; wx0; scen; orig; faults] ->
     let sc = parse_scen scen in
     let cks = parse_checks ck in
     let origb = unhexbytes orig in
     let one t =
-      let (fo, cap) = parse_fault t in
+      let (fo, cap, glitch) = parse_fault t in
       let en = { en_B = nat_of_int (int_of_string b); en_fault = fo; en_initcap = cap;
-                 en_exit_rounds = nat_of_int (int_of_string rounds); en_ck = cks } in
+                 en_exit_rounds = nat_of_int (int_of_string rounds); en_ck = cks;
+                 en_md5_pops = nat_of_int (int_of_string pops); en_glitch = glitch } in
       result_str verbose (c10_run en (warn = "1") (wx0 = "1") sc origb) in
     String.concat " " (List.map one (String.split_on_char ',' faults))
   | _ -> "?args"
